@@ -1014,7 +1014,8 @@ class SVG:
         for el in self.svg_root.getiterator("*"):
             attr_to_rm = []
             ns, _ = splitns(el.tag)
-            if ns not in good_ns:
+            # no namespace is fine for attributes only: <foo xmlns=""/> is not svg content
+            if ns is None or ns not in good_ns:
                 el_to_rm.append(el)
                 continue
             for attr in el.attrib:
